@@ -376,7 +376,15 @@ func (p c19) faithful(c *core.Ctx) {
 		if c.Rng.Intn(2) == 0 {
 			variant = strings.ToUpper(key[:1]) + key[1:]
 		}
-		if c.Rng.Intn(2) == 0 {
+		if first := rargs[key]; len(first) > 0 && first[0] != "" && c.Rng.Intn(3) == 0 {
+			// several values added at once, one of them already present: the new one is among the items afterwards
+			// (whether the repeated one is kept twice is not judged)
+			pr.AddArg(component_definition.ArgType(variant), first[0], "extra-item")
+			if got, _ := pr.Args().Find(component_definition.ArgType(key)); !contains(got, "extra-item") || !pr.Args().Has(component_definition.ArgType(key), "extra-item") {
+				c.Fail("", fmt.Sprintf("tag %q: after AddArg(%q, %q, \"extra-item\") argument %q has items %q - the added item is missing", tag, variant, first[0], key, got), nil)
+				return
+			}
+		} else if c.Rng.Intn(2) == 0 {
 			pr.AddArg(component_definition.ArgType(variant), "extra-item")
 			want := append(append([]string{}, rargs[key]...), "extra-item")
 			if got, _ := pr.Args().Find(component_definition.ArgType(key)); !reflect.DeepEqual(got, want) {
